@@ -9,13 +9,13 @@ uses names without white space).
   reset [orig]                         -> ok           (orig: the model of the code before F21/F22)
   connect                              -> ok <id>
   msg <i> <type 1-4> <serial> <flags> <path> <iface> <member> <error_name> <reply_serial> <dest>
-      <sender> <body> OP               -> OUT
-        OP = always | addmatch <type 1-4|~> <iface> <member> <path> <destination> | exec <k> EFF*k
+      <sender> <extra> <body> OP            (flags = the whole flags byte; extra = token for unknown header fields)               -> OUT
+        OP = always | addmatch <type 1-4|~> <sender> <iface> <member> <path> <destination> | exec <k> EFF*k
   disc <i> <k> EFF*k                   -> OUT
         EFF = own <name> <j> | unown <name> | sig <j> <member> <body> | bcast <member> <body>
 
   OUT = named=<i>:<name>|~ lose=<0|1> n=<k> ; <to> <payload> ; ...
-        payload = F type serial flags path iface member error_name reply_serial dest sender body
+        payload = F type serial flags path iface member error_name reply_serial dest sender extra body
                 | H reply_serial name | R reply_serial dest | S path iface member dest body
 -/
 open Txdbus.BusRoute
@@ -63,13 +63,14 @@ def parseEffects : Nat → List String → Option (List Effect × List String)
 
 def parseOp : List String → Option (BusOp SimpleRule)
   | ["always"] => some .always
-  | ["addmatch", t, i, m, p, d] =>
+  | ["addmatch", t, snd, i, m, p, d] =>
       if t == "~" then
-        some (.addMatch { iface := optName i, member := optName m, path := optName p, destination := optName d })
+        some (.addMatch { sender := optName snd, iface := optName i, member := optName m, path := optName p,
+                          destination := optName d })
       else do
         let t ← mtypeOf? t
-        pure (.addMatch { mtype := some t, iface := optName i, member := optName m, path := optName p,
-                          destination := optName d })
+        pure (.addMatch { mtype := some t, sender := optName snd, iface := optName i, member := optName m,
+                          path := optName p, destination := optName d })
   | "exec" :: k :: ts => do
       let k ← k.toNat?
       let (es, r) ← parseEffects k ts
@@ -78,7 +79,7 @@ def parseOp : List String → Option (BusOp SimpleRule)
 
 def parseEvent : List String → Option (Event SimpleRule)
   | ["connect"] => some .connect
-  | "msg" :: i :: ty :: serial :: flags :: path :: iface :: member :: err :: rs :: dest :: sender :: body :: op => do
+  | "msg" :: i :: ty :: serial :: flags :: path :: iface :: member :: err :: rs :: dest :: sender :: extra :: body :: op => do
       let i ← i.toNat?
       let ty ← mtypeOf? ty
       let serial ← serial.toNat?
@@ -86,6 +87,7 @@ def parseEvent : List String → Option (Event SimpleRule)
       let rs ← optNat? rs
       let op ← parseOp op
       pure (.msg i { mtype := ty, serial := serial, noReply := flags % 2 == 1, noAutoStart := flags / 2 % 2 == 1,
+                     otherFlags := flags - flags % 4, extra := name! extra,
                      path := optName path, iface := optName iface, member := optName member,
                      errorName := optName err, replySerial := rs, dest := optName dest,
                      sender := optName sender, body := name! body } op)
@@ -98,8 +100,8 @@ def parseEvent : List String → Option (Event SimpleRule)
 
 def showPayload : Payload → String
   | .fwd _ m =>
-      let flags := (if m.noReply then 1 else 0) + (if m.noAutoStart then 2 else 0)
-      s!"F {mtypeNum m.mtype} {m.serial} {flags} {showOpt m.path} {showOpt m.iface} {showOpt m.member} {showOpt m.errorName} {showOptNat m.replySerial} {showOpt m.dest} {showOpt m.sender} {showName m.body}"
+      let flags := (if m.noReply then 1 else 0) + (if m.noAutoStart then 2 else 0) + m.otherFlags
+      s!"F {mtypeNum m.mtype} {m.serial} {flags} {showOpt m.path} {showOpt m.iface} {showOpt m.member} {showOpt m.errorName} {showOptNat m.replySerial} {showOpt m.dest} {showOpt m.sender} {showName m.extra} {showName m.body}"
   | .helloReply serial nm => s!"H {serial} {showName nm}"
   | .busReply serial d => s!"R {serial} {showName d}"
   | .busSignal m => s!"S {showOpt m.path} {showOpt m.iface} {showOpt m.member} {showOpt m.dest} {showName m.body}"
